@@ -21,6 +21,8 @@
 //!                                          glue around the real `write`) -> <frames> <new_len> <checksum> <unblocked>
 //!   bhglue                                 the black-hole glue of Connection::detect_lost_packets (replica around
 //!                                          the real max_size/drop_oversized) -> none | ok <dropped> <unblocked>
+//!   ptx                                    Connection::poll_transmit (head-of-queue purge of unsendable datagrams)
+//!                                          -> ok <number of DatagramsUnblocked events emitted>
 //!   poke out <n> | poke in <n>             overwrite outgoing_total / lower recv_buffered (inconsistent states)
 //! Every response ends with ` | o=<outgoing_total>:<queue> i=<recv_buffered>:<queue> b=<send_blocked>`.
 use std::sync::Arc;
@@ -336,6 +338,18 @@ impl Comp for DgramC {
                     r = format!("ok {dropped} {unblocked}");
                 }
                 self.st(&r)
+            }
+            ["ptx"] => {
+                // the real Connection::poll_transmit (which discards unsendable datagrams at the head of the send
+                // queue before anything else); the connection has no application keys, so nothing is written
+                let mut buf = Vec::new();
+                let _ = self.conn.poll_transmit(Instant::now(), 1, &mut buf);
+                let before = self.conn.events.len();
+                self.conn
+                    .events
+                    .retain(|e| !matches!(e, crate::Event::DatagramsUnblocked));
+                let unblocked = before - self.conn.events.len();
+                self.st(&format!("ok {unblocked}"))
             }
             ["poke", which, n] => {
                 let Some(n) = usize_(n) else {
